@@ -115,3 +115,12 @@ def bshape(a, b):
             return None
         r.append(max(x, y))
     return r[::-1]
+
+def dim_size(rng, small=3):
+    """dimension size: mostly tiny, sometimes past typical unrolling / blocking factors"""
+    r = rng.random()
+    if r < 0.7:
+        return rng.randint(1, small)
+    if r < 0.93:
+        return rng.choice([4, 5, 7, 8, 9, 10, 11, 14, 15, 16, 17])
+    return rng.choice([31, 32, 33, 64, 65])
